@@ -11,12 +11,13 @@ pub fn choose(n: u64, k: u64) -> u64 {
 
     let k = if k > n - k { n - k } else { k };
 
-    let mut result = 1;
+    // the product before the division may exceed u64 even if the result fits
+    let mut result: u128 = 1;
     for i in 1..=k {
-        result = result * (n - i + 1) / i;
+        result = result * (n - i + 1) as u128 / i as u128;
     }
 
-    result
+    result as u64
 }
 
 /// calculate the largest power of 2 less or equal to n
